@@ -46,11 +46,12 @@ type Check struct {
 	Post func(cov map[string]any, stats map[string]int64, tier string)
 	// CaseTimeout bounds one case in a worker (watchdog => inconclusive unless
 	// HangIsViolation).
-	CaseTimeout     time.Duration
-	HangIsViolation bool
-	MaxJobs         int
-	RaceIsViolation bool // C16: race detector reports are verdicts
-	MinConclusive   int
+	CaseTimeout      time.Duration
+	HangIsViolation  bool
+	HangInconclusive bool // stress checks: a watchdog firing is inconclusive
+	MaxJobs          int
+	RaceIsViolation  bool // C16: race detector reports are verdicts
+	MinConclusive    int
 	// Findings returns deterministic reproducers of known findings: name -> func
 	// returning (stillReproduces, description).
 	Findings map[string]func() (bool, string)
@@ -208,6 +209,7 @@ func runWorker(exe, prop, tier string, seed int64, from, step, total int, caseTi
 	var out workerOut
 	out.logs = map[int]string{}
 	start := from
+	hangs := 0
 	for start < total {
 		cmd := exec.Command(exe, "worker", prop, "--tier", tier, "--seed", strconv.FormatInt(seed, 10),
 			"--from", strconv.Itoa(start), "--step", strconv.Itoa(step), "--total", strconv.Itoa(total))
@@ -312,6 +314,14 @@ func runWorker(exe, prop, tier string, seed int64, from, step, total int, caseTi
 			}
 			out.logs[cur] = tail
 		}
+		if timedOut {
+			hangs++
+			if hangs >= 2 {
+				// do not burn the whole budget on a tree that hangs again and again
+				out.results = append(out.results, &core.CaseResult{ID: fmt.Sprintf("%s-%s-s%d-c%d", prop, tier, seed, cur+step), Verdict: "inconclusive", Note: "worker gave up after two watchdog firings; remaining cases of this shard not run"})
+				return out
+			}
+		}
 		// continue after the crashed case
 		start = cur + step
 		for start <= cur {
@@ -385,7 +395,7 @@ func Coordinate(exe, prop, tier string, seed int64, jobs int) int {
 			if chk.Race {
 				rb = filepath.Join(raceDir, fmt.Sprintf("race-w%d", j))
 			}
-			outs[j] = runWorker(exe, prop, tier, seed, j, jobs, total, ct, chk.HangIsViolation, rb)
+			outs[j] = runWorker(exe, prop, tier, seed, j, jobs, total, ct, chk.HangIsViolation || !chk.HangInconclusive, rb)
 		}(j)
 	}
 	wg.Wait()
@@ -479,17 +489,17 @@ func Coordinate(exe, prop, tier string, seed int64, jobs int) int {
 	}
 	conclusive := held + violated
 	cov := map[string]any{
-		"evaluations":         len(results),
-		"distinct_nontrivial": len(distinct),
-		"rule":                chk.Rule,
-		"samples":             samples,
-		"cases_held":          held,
-		"cases_violated":      violated,
-		"cases_inconclusive":  inconclusive,
+		"evaluations":            len(results),
+		"distinct_nontrivial":    len(distinct),
+		"rule":                   chk.Rule,
+		"samples":                samples,
+		"cases_held":             held,
+		"cases_violated":         violated,
+		"cases_inconclusive":     inconclusive,
 		"known_findings_matched": knownBy,
-		"flags_observed":      flags,
-		"stats":               stats,
-		"workers":             jobs,
+		"flags_observed":         flags,
+		"stats":                  stats,
+		"workers":                jobs,
 	}
 	if chk.Exhaustive != nil && chk.Exhaustive(tier) {
 		cov["exhaustive"] = true
